@@ -12,6 +12,27 @@ def _path(ctx, name):
     return os.path.join(ctx.root, name)
 
 
+def _io_begin(ctx):
+    from sim import seams
+    if not (seams.SHIM and seams.SHIM.present):
+        return
+    seams.SHIM.reset()
+    pend = getattr(ctx, 'pending_io_fault', None)
+    ctx.pending_io_fault = None
+    if pend:
+        seams.SHIM.arm(*pend)
+        ctx.extra['armed'] = list(pend)
+
+
+def _io_end(ctx):
+    from sim import seams
+    if not (seams.SHIM and seams.SHIM.present):
+        return
+    ctx.extra['calltypes'] = seams.SHIM.calltypes()
+    ctx.extra['fired'] = seams.SHIM.fired()
+    seams.SHIM.disarm()
+
+
 @op('hp_save')
 def hp_save(ctx, obj, path):
     import holopy as hp
@@ -24,3 +45,289 @@ def hp_save(ctx, obj, path):
 def hp_load(ctx, path):
     import holopy as hp
     return hp.load(_path(ctx, path))
+
+
+# ---------------------------------------------------------------------------
+# object grammar (C15)
+# ---------------------------------------------------------------------------
+
+def _classes():
+    import holopy.scattering as S
+    import holopy.inference as I
+    from holopy.core import prior as P
+    from holopy.scattering.theory.lens import Lens
+    from holopy.scattering.scatterer import csg
+    d = {}
+    for mod in (S, I, P, csg):
+        for k in dir(mod):
+            v = getattr(mod, k)
+            if isinstance(v, type):
+                d[k] = v
+    d['Lens'] = Lens
+    return d
+
+
+def build_obj(ctx, spec):
+    """spec: {'cls': name, 'kw': {...}} | {'ref'..} | expr | literal."""
+    if isinstance(spec, dict):
+        if 'cls' in spec:
+            cls = _classes()[spec['cls']]
+            kw = {k: build_obj(ctx, v) for k, v in spec.get('kw', {}).items()}
+            obj = cls(**kw)
+            for tie in spec.get('ties', []):
+                names = list(obj._parameter_names)
+                chosen = [n for n in names if n.endswith(tie['suffix'])]
+                if len(chosen) > 1:
+                    obj.add_tie(chosen, new_name=tie.get('new_name'))
+            return obj
+        if 'fn' in spec:
+            from sim.ops.priors import BINOPS
+            args = [build_obj(ctx, a) for a in spec['args']]
+            fn = spec['fn']
+            if fn in BINOPS:
+                return BINOPS[fn](args[0], args[1])
+            if fn == 'neg':
+                return -args[0]
+            return getattr(np, fn[6:])(*args)
+        if 'tuple' in spec and len(spec) == 1:
+            return tuple(build_obj(ctx, i) for i in spec['tuple'])
+        if 'dict' in spec and len(spec) == 1:
+            return {k: build_obj(ctx, v) for k, v in spec['dict']}
+        if 'func' in spec and len(spec) == 1:
+            import holopy.scattering as S
+            return getattr(S, spec['func'])
+        if 'da' in spec:
+            import xarray as xr
+            return xr.DataArray(
+                [build_obj(ctx, v) for v in spec['da']['values']],
+                dims=[spec['da']['dim']],
+                coords={spec['da']['dim']: spec['da']['keys']})
+        return val(ctx, spec)
+    if isinstance(spec, list):
+        return [build_obj(ctx, i) for i in spec]
+    return spec
+
+
+@op('build')
+def build(ctx, spec):
+    return build_obj(ctx, spec)
+
+
+def describe(x, depth=0):
+    """Class + value of every constructor argument, sequence containers
+    normalised to lists (what the property promises to survive)."""
+    import xarray as xr
+    from holopy.core.holopy_object import HoloPyObject
+    if depth > 30:
+        return '<deep>'
+    if isinstance(x, HoloPyObject):
+        names = x.__init__.__code__.co_varnames[1:x.__init__.__code__.co_argcount]
+        args = {}
+        for v in names:
+            args[v] = describe(_try(lambda: getattr(x, v, None)), depth + 1)
+        if hasattr(x, '_parameter_names') and hasattr(x, '_maps'):
+            args = {'__model__': {
+                'names': list(x._parameter_names),
+                'parameters': [describe(p, depth + 1)
+                               for p in x._parameters],
+                'constraints': describe(list(getattr(x, 'constraints', [])),
+                                        depth + 1),
+                'theory': describe(x.theory, depth + 1),
+                'scatterer': describe(x.scatterer, depth + 1),
+                'noise_sd': describe(_try(lambda: x.noise_sd), depth + 1),
+                'medium_index': describe(_try(lambda: x.medium_index),
+                                         depth + 1),
+                'illum_wavelen': describe(_try(lambda: x.illum_wavelen),
+                                          depth + 1),
+                'illum_polarization': describe(
+                    _try(lambda: x.illum_polarization), depth + 1),
+                'alpha': describe(_try(lambda: x.alpha), depth + 1),
+                'calc_func': describe(getattr(x, 'calc_func', None),
+                                      depth + 1)}}
+        return {'cls': type(x).__name__, 'args': args}
+    if isinstance(x, xr.DataArray):
+        return {'da': describe(x.values, depth + 1),
+                'dims': list(x.dims),
+                'coords': {str(k): describe(x.coords[k].values, depth + 1)
+                           for k in x.coords}}
+    if isinstance(x, np.ndarray):
+        return [describe(i, depth + 1) for i in x.tolist()] \
+            if x.ndim else describe(x.item(), depth + 1)
+    if isinstance(x, (list, tuple)):
+        return [describe(i, depth + 1) for i in x]
+    if isinstance(x, dict):
+        return {'map': sorted(((str(k), describe(v, depth + 1))
+                               for k, v in x.items()), key=lambda kv: kv[0])}
+    if isinstance(x, np.generic):
+        return describe(x.item(), depth + 1)
+    if isinstance(x, bool) or x is None or isinstance(x, (int, str)):
+        return x
+    if isinstance(x, float):
+        return x
+    if isinstance(x, complex):
+        return {'complex': [x.real, x.imag]}
+    if callable(x):
+        return {'callable': getattr(x, '__name__', type(x).__name__)}
+    return {'other': type(x).__name__}
+
+
+def _try(fn):
+    try:
+        return fn()
+    except Exception as e:
+        return '<%s>' % type(e).__name__
+
+
+def snapshot(obj):
+    import yaml
+    out = {'describe': describe(obj)}
+    try:
+        out['yaml'] = yaml.dump(obj, default_flow_style=True)
+    except Exception as e:
+        out['yaml_exc'] = type(e).__name__ + ': ' + str(e)[:160]
+    return out
+
+
+@op('obj_snapshot')
+def obj_snapshot(ctx, obj):
+    return snapshot(val(ctx, obj))
+
+
+@op('obj_equal')
+def obj_equal(ctx, a, b):
+    x, y = val(ctx, a), val(ctx, b)
+    return {'eq': bool(x == y), 'eq_rev': bool(y == x)}
+
+
+# ---------------------------------------------------------------------------
+# streams (F11)
+# ---------------------------------------------------------------------------
+
+class ShortReadRaw(_io.RawIOBase):
+    """Seekable (or not) raw stream returning at most k bytes per read."""
+
+    def __init__(self, data, k, seekable=True):
+        self._b = _io.BytesIO(data)
+        self._k = k
+        self._seekable = seekable
+
+    def readable(self):
+        return True
+
+    def seekable(self):
+        return self._seekable
+
+    def readinto(self, b):
+        chunk = self._b.read(min(len(b), self._k))
+        b[:len(chunk)] = chunk
+        return len(chunk)
+
+    def seek(self, pos, whence=0):
+        if not self._seekable:
+            raise _io.UnsupportedOperation('seek')
+        return self._b.seek(pos, whence)
+
+    def tell(self):
+        if not self._seekable:
+            raise _io.UnsupportedOperation('tell')
+        return self._b.tell()
+
+
+class FailingWriter(_io.RawIOBase):
+    """Raw sink under a BufferedWriter: raises OSError at the n-th write."""
+
+    def __init__(self, n):
+        self.n = n
+        self.calls = 0
+        self.buf = bytearray()
+
+    def writable(self):
+        return True
+
+    def write(self, b):
+        self.calls += 1
+        if self.calls > self.n:
+            raise OSError(28, 'No space left on device (simulated)')
+        self.buf += bytes(b)
+        return len(b)
+
+
+@op('save_stream')
+def save_stream(ctx, obj, kind='bytesio', n=1, bufsize=16):
+    """hp.save to a caller-supplied binary stream; stores the bytes."""
+    import holopy as hp
+    o = val(ctx, obj)
+    if kind == 'bytesio':
+        s = _io.BytesIO()
+        hp.save(s, o)
+        data = s.getvalue()
+    elif kind == 'file':
+        p = _path(ctx, '_stream_%s.tmp' % ctx.opid)
+        with open(p, 'wb') as f:
+            hp.save(f, o)
+        data = open(p, 'rb').read()
+    elif kind == 'buffered_failing':
+        raw = FailingWriter(n)
+        s = _io.BufferedWriter(raw, buffer_size=bufsize)
+        try:
+            hp.save(s, o)
+            s.flush()
+        finally:
+            ctx.extra['writes'] = raw.calls
+        data = bytes(raw.buf)
+    else:
+        raise ValueError(kind)
+    ctx.extra['__store__'] = data
+    return {'nbytes': len(data), 'snapshot': snapshot(o)}
+
+
+@op('load_stream')
+def load_stream(ctx, blob, kind='bytesio', k=7, via='hp'):
+    import holopy as hp
+    from holopy.core.io import serialize
+    data = val(ctx, blob)
+    if kind == 'bytesio':
+        s = _io.BytesIO(data)
+    elif kind == 'shortread':
+        s = ShortReadRaw(data, k)
+    elif kind == 'buffered_shortread':
+        s = _io.BufferedReader(ShortReadRaw(data, k))
+    elif kind == 'offset':
+        s = _io.BytesIO(b'junk!' + data)
+        s.seek(5)
+    elif kind == 'nonseekable':
+        s = ShortReadRaw(data, k, seekable=False)
+        via = 'serialize'
+    else:
+        raise ValueError(kind)
+    obj = hp.load(s) if via == 'hp' else serialize.load(s)
+    ctx.extra['__store__'] = obj
+    return snapshot(obj)
+
+
+@op('save_path')
+def save_path(ctx, obj, path):
+    import holopy as hp
+    from sim import seams
+    o = val(ctx, obj)
+    snap = snapshot(o)
+    ctx.extra['snapshot'] = snap
+    _io_begin(ctx)
+    try:
+        hp.save(_path(ctx, path), o)
+    finally:
+        _io_end(ctx)
+    return {'snapshot': snap}
+
+
+@op('load_path')
+def load_path(ctx, path):
+    import holopy as hp
+    from sim import seams
+    _io_begin(ctx)
+    try:
+        obj = hp.load(_path(ctx, path))
+    finally:
+        _io_end(ctx)
+    ctx.extra['__store__'] = obj
+    return snapshot(obj)
